@@ -119,3 +119,23 @@ Proof. exact eq_alg_sym_lemma. Qed.
 Theorem C11_eq_trans : forall g a b c, wfb g = true -> ord_onlyb g = true ->
   eq_alg g a b = Some true -> eq_alg g b c = Some true -> eq_alg g a c = Some true.
 Proof. exact eq_alg_trans_lemma. Qed.
+
+(* ------------------------------------------------------------------ binary map / set operations *)
+(* hash-union: for every key the LEFT value wins, otherwise the right one (hashmaps.rs doc) *)
+Theorem C11_union_spec : forall k l r,
+  mlookup k (munion l r) = match mlookup k l with Some v => Some v | None => mlookup k r end.
+Proof. exact union_spec_lemma. Qed.
+
+Theorem C11_union_keeps_keys_distinct : forall l r,
+  NoDup (map fst l) -> NoDup (map fst r) -> NoDup (map fst (munion l r)).
+Proof. exact munion_nodup. Qed.
+
+(* hashset-union / -intersection / -difference (symmetric, as documented) / -subset? *)
+Theorem C11_set_ops_spec : forall l r x,
+  (In x (sunion l r) <-> In x l \/ In x r) /\
+  (In x (sinter l r) <-> In x l /\ In x r) /\
+  (In x (ssymdiff l r) <-> (In x l /\ ~ In x r) \/ (In x r /\ ~ In x l)) /\
+  (ssubset l r = true <-> incl l r).
+Proof.
+  intros l r x. split; [apply sunion_spec|]. split; [apply sinter_spec|]. split; [apply ssymdiff_spec|apply ssubset_spec].
+Qed.
